@@ -741,6 +741,7 @@ func main() {
 		}
 	}
 	_ = errors.New
+	importerCloseStage()
 	rep.Write(orc)
 }
 
